@@ -287,6 +287,17 @@ class FunctionVC:
             if qn in self.c.inline:
                 fs = FunctionSource(rel, qn)
                 return I.call_closure(Closure(fs.node, {}, None, qn), args, kwargs)
+            if '.' not in qn and I.inline_depth < 3:
+                # a module-level helper of the repository without a contract (typically one a change
+                # has just introduced): its real source is executed in place -- as sound as executing the
+                # caller's own statements; if it is outside the subset the unit is undecided as before
+                try:
+                    fs = FunctionSource(rel, qn)
+                except Unsupported:
+                    fs = None
+                if fs is not None:
+                    I.ghost.setdefault('auto_inlined', []).append(tgt)
+                    return I.call_closure(Closure(fs.node, {}, None, qn), args, kwargs)
             raise Unsupported('call to %s which has no contract' % tgt)
         return None
 
